@@ -24,6 +24,7 @@ struct Run : ContBase {
     ~Run() { if (t) qhashtbl_free(t); if (devnull) fclose(devnull); }
 
     std::string gen_key() {
+        if (s.chance(1, 8)) { const auto &tw = hash_twins(); const auto &p = tw[s.range(0, (long)tw.size() - 1)]; return s.boolean() ? p.first : p.second; }   // equal 32-bit hash, different bytes
         int k = s.pick({6, 2, 1, 1});
         std::string r;
         if (k == 3) return r;                                   // empty key
@@ -52,7 +53,7 @@ struct Run : ContBase {
         if (present && chain_pos(k, &pos, &len) && len >= 3 && pos > 0) pending_nt++;
         Buf *kb = Buf::cstr(k);
         bool ok; Ent e;
-        errno = 0;
+        errno = poison;
         if (api == 0) { std::string v = gen_val(false); Buf vb(v); ok = qhashtbl_put(t, kb->c(), vb.p, vb.n); if (scribble) vb.scribble(); e = Ent{v, false}; }
         else if (api == 1) { std::string v = gen_val(true); Buf *vs = Buf::cstr(v); ok = qhashtbl_putstr(t, kb->c(), vs->c()); if (scribble) vs->scribble(); delete vs; e = Ent{v + std::string(1, '\0'), true}; }
         else if (api == 2) { std::string v = gen_val(true, 40); long n = s.range(-1000, 1000); Buf *vs = Buf::cstr(v); ok = qhashtbl_putstrf(t, kb->c(), "%s/%ld", vs->c(), n); if (scribble) vs->scribble(); delete vs; e = Ent{v + "/" + std::to_string(n) + std::string(1, '\0'), true}; }
@@ -77,7 +78,7 @@ struct Run : ContBase {
         bool newmem = s.boolean();
         Buf *kb = Buf::cstr(k);
         size_t sz = 424242; void *p = nullptr; int64_t iv = 0;
-        errno = 0;
+        errno = poison;
         if (api == 0) p = qhashtbl_get(t, kb->c(), &sz, newmem);
         else if (api == 1) p = qhashtbl_getstr(t, kb->c(), newmem);
         else iv = qhashtbl_getint(t, kb->c());
@@ -108,7 +109,7 @@ struct Run : ContBase {
         size_t pos = 0, len = 0;
         bool inner = present && chain_pos(k, &pos, &len) && len >= 3 && pos > 0;
         Buf *kb = Buf::cstr(k);
-        errno = 0;
+        errno = poison;
         bool ok = qhashtbl_remove(t, kb->c());
         int e = errno;
         if (scribble) kb->scribble();
@@ -125,7 +126,7 @@ struct Run : ContBase {
         qhashtbl_obj_t o; memset(&o, 0, sizeof o);
         std::map<std::string, int> seen;
         size_t steps = 0;
-        errno = 0;
+        errno = poison;
         while (qhashtbl_getnext(t, &o, newmem)) {
             if (++steps > m.size() + 8) c.fail(FUNC, "hashtbl:walk-endless", "walk returned more than %zu entries for %zu keys", m.size() + 8, m.size());
             if (!o.name) c.fail(FUNC, "hashtbl:walk-null", "walk returned an entry without a name");
@@ -153,6 +154,7 @@ struct Run : ContBase {
         check_size(when);
     }
     void run() {
+        draw_poison();
         int rk = (int)s.pick({3, 2, 2, 2, 1, 1, 2});
         static const size_t fixed[] = {1, 2, 3, 5, 16, 0};
         range = rk < 6 ? fixed[rk] : (size_t)s.range(1, 64);
